@@ -15,17 +15,6 @@ Definition abuild_of_sx (x : sx) : abuild :=
        (match sx_nth 1 x with A _ => None | L _ => Some (sbuild_of_sx (sx_nth 1 x)) end)
        (map dbuild_of_sx (sx_list (sx_nth 2 x))).
 
-(* annotate_from_iter: stops at the first error *)
-Fixpoint annotate_batch (s : store) (l : list abuild) : store * out * nat :=
-  match l with
-  | [] => (s, OOk 0, 0)
-  | b :: l' =>
-      match annotate s b with
-      | (s1, OOk _) => let '(s2, r, n) := annotate_batch s1 l' in (s2, r, S n)
-      | (s1, r) => (s1, r, 0)
-      end
-  end.
-
 Definition sx_eq_list (a b : list sx) : bool := sx_eqb (L a) (L b).
 
 Definition res_view (s : store) : sx := L (map (fun r => obs_res s false r) (seq 0 (length (ress s)))).
